@@ -2328,4 +2328,317 @@ template <class T> static void alias_case (vp::Ctx& c)
 C10_ALIAS (alias_f, float)
 C10_ALIAS (alias_d, double)
 
+// =====================================================================================
+// J. derived inputs: the quaternion handed to log / exp / angle / axis / toMatrix / extractQuat / rotateVector /
+//    slerp / slerpShortestArc / angle4D / intermediate / squad / spline is the OUTPUT of earlier quaternion
+//    operations on generated unit quaternions (q.inverse()*q, q*~q, (p*q)*(p*q).inverse(), q*q.inverse()*q, p*q,
+//    normalized() ...): unit only to rounding, real part possibly 1+ulp, norm slightly above or below 1 - values a
+//    constructor fed with rounded long-double components never produces.  And squad / spline with REPEATED keys
+//    (the usual end-of-curve treatment: (q0,q0,q1,q2), (q0,q1,q2,q2); also a repeated middle key and all keys equal),
+//    where intermediate() itself forms q1.inverse()*q0 of two bit-identical quaternions.
+//    The assertions and bounds are those of B / C / A / F / G, against the quad oracle evaluated on the derived value
+//    (normalised in quad); everything must be finite.
+// =====================================================================================
+enum
+{
+    LJ_R_ABOVE_1 = QC_NCLASS,
+    LJ_R_EXACTLY_1,
+    LJ_NORM_ABOVE_1,
+    LJ_NORM_BELOW_1,
+    LJ_NEAR_IDENTITY,
+    LJ_NEAR_MINUS_IDENTITY,
+    LJ_EXPLOG_CHECKED,
+    LJ_PARTNER_SAME_ROTATION,
+    LJ_PARTNER_ANTIPODAL,
+    LJ_REPEAT_FIRST,
+    LJ_REPEAT_MIDDLE,
+    LJ_REPEAT_LAST,
+    LJ_ALL_EQUAL,
+    LJ_DERIVED_KEYS,
+    LJ_LOG_ARG_R_ABOVE_1
+};
+enum
+{
+    DF_INV_Q_TIMES_Q,
+    DF_Q_TIMES_INV_Q,
+    DF_Q_TIMES_CONJ,
+    DF_PQ_TIMES_INV_PQ,
+    DF_Q_OVER_Q,
+    DF_Q_INV_Q_Q,
+    DF_PQ_CONJ_Q,
+    DF_PQ,
+    DF_PQ_NORMALIZED,
+    DF_Q_NORMALIZED,
+    DF_INV_P_TIMES_Q,
+    DF_MINUS_INV_Q_TIMES_Q,
+    DF_P_Q_CONJ_P,
+    DF_N
+};
+static const char* derived_form_name (int f)
+{
+    static const char* n[DF_N] = { "q.inverse()*q", "q*q.inverse()", "q*~q", "(p*q)*(p*q).inverse()", "q/q", "q*q.inverse()*q", "(p*q)*~q", "p*q", "(p*q).normalized()", "q.normalized()", "p.inverse()*q", "-(q.inverse()*q)", "p*q*~p" };
+    return n[f];
+}
+template <class T> static Quat<T> derive_quat (int form, const Quat<T>& p, const Quat<T>& q)
+{
+    switch (form)
+    {
+        case DF_INV_Q_TIMES_Q: return q.inverse () * q;
+        case DF_Q_TIMES_INV_Q: return q * q.inverse ();
+        case DF_Q_TIMES_CONJ: return q * ~q;
+        case DF_PQ_TIMES_INV_PQ: return (p * q) * (p * q).inverse ();
+        case DF_Q_OVER_Q: return q / q;
+        case DF_Q_INV_Q_Q: return q * q.inverse () * q;
+        case DF_PQ_CONJ_Q: return (p * q) * ~q;
+        case DF_PQ: return p * q;
+        case DF_PQ_NORMALIZED: return (p * q).normalized ();
+        case DF_Q_NORMALIZED: return q.normalized ();
+        case DF_INV_P_TIMES_Q: return p.inverse () * q;
+        case DF_MINUS_INV_Q_TIMES_Q: return -(q.inverse () * q);
+        default: return p * q * ~p;
+    }
+}
+template <class T> static inline bool finiteq (const Quat<T>& a)
+{
+    for (int i = 0; i < 4; ++i)
+        if (!(a[i] - a[i] == 0)) return false;
+    return true;
+}
+template <class T> static void derived_case (vp::Ctx& c)
+{
+    const quad e = EPS<T> ();
+    vp::Src&   s = c.s;
+    int        c1, c2;
+    Quat<T>    p    = gen_unit_quat<T> (s, c1);
+    Quat<T>    q    = gen_unit_quat<T> (s, c2);
+    int        form = (int) s.below (DF_N);
+    int        tc;
+    T          t = gen_t<T> (s, tc);
+    Vec3<T>    v = gen_vec<T> (s);
+    c.label (c2);
+    const Quat<T> D = derive_quat<T> (form, p, q);
+    VP_NOTE (c, TN<T>::q () << " D = " << derived_form_name (form) << " = " << qs (D) << " p=" << qs (p) << " q=" << qs (q) << " t=" << t << " v=" << vs (v));
+    const Q4   QD = toQ (D), UD = q_unit (QD);
+    const quad nD = sqrtq (q_n2 (QD));
+    if (D.r > 1) c.label (LJ_R_ABOVE_1);
+    if (D.r == 1) c.label (LJ_R_EXACTLY_1);
+    if (nD > 1) c.label (LJ_NORM_ABOVE_1);
+    if (nD < 1) c.label (LJ_NORM_BELOW_1);
+    if (UD.r > 1 - 64 * e) c.label (LJ_NEAR_IDENTITY);
+    if (UD.r < -1 + 64 * e) c.label (LJ_NEAR_MINUS_IDENTITY);
+    c.nt (true);
+    const std::string what = std::string (TN<T>::q ()) + " D = " + derived_form_name (form) + " = " + qs (D) + " (p=" + qs (p) + " q=" + qs (q) + "): ";
+
+    // the derived value is a unit quaternion to rounding (that is what makes it a legitimate input below)
+    MEAS ("J.norm-1", qabs (nD - 1) / e); // measured worst 2.62 eps
+    VP_REQUIRE (c, finiteq (D) && qabs (nD - 1) <= 12 * e, "derived/not-unit", what << "length " << qstr (nD));
+    // The bounds of the base sub-checks were measured on inputs whose length is within ~0.5 eps of 1; D is off by
+    // dn eps (dn <= 2.6), and every function below is homogeneous of degree 1 or 2 in its argument while the oracle
+    // works on D/|D|: the deviation enters the comparison as at most 1 x (2 x for matrix entries / rotated vectors)
+    // dn eps times the conditioning, and is granted on top of the base bound with a factor 2.
+    const quad dn = qabs (nD - 1) / e;
+
+    // ---- log / exp  (statement: exp(log q) = q unless the real part is close to -1)
+    if (UD.r > (quad) -0.9)
+    {
+        c.label (LJ_EXPLOG_CHECKED);
+        quad    vl   = sqrtq (UD.x * UD.x + UD.y * UD.y + UD.z * UD.z);
+        quad    th   = atan2q (vl, UD.r);
+        quad    cond = th > 0 ? qmax ((quad) 1, th / sinq (th)) : (quad) 1;
+        Quat<T> lg   = D.log ();
+        Q4      WL   = q_log (UD);
+        quad    dl   = q_diff_pm (lg, WL, false);
+        const quad tl = (8 + 2 * dn) * e * cond;
+        MEAS ("J.log/limit", dl / tl); // measured worst 0.46 of the limit
+        VP_REQUIRE (c, finiteq (lg), "derived/log-not-finite", what << "log(D)=" << qs (lg));
+        VP_REQUIRE (c, dl <= tl, "derived/quat-log", what << "log(D)=" << qs (lg) << " exact " << q4str (WL) << " error " << (double) (dl / e) << " eps (limit " << (double) (tl / e) << ")");
+        Quat<T> el = lg.exp ();
+        quad    de = q_diff_pm (el, UD, false);
+        MEAS ("J.exp-log/limit", de / tl); // measured worst 0.42 of the limit
+        VP_REQUIRE (c, de <= tl, "derived/exp-of-log", what << "exp(log D)=" << qs (el) << " (log D=" << qs (lg) << ") error " << (double) (de / e) << " eps (limit " << (double) (tl / e) << ")");
+    }
+    // ---- one more generation: E = D.inverse()*D is again unit to rounding, and log / exp of it are finite and ~0 / ~1
+    {
+        Quat<T> E  = D.inverse () * D;
+        Quat<T> lg = E.log (), el = lg.exp ();
+        Q4      UE = q_unit (toQ (E));
+        if (E.r > 1) c.label (LJ_LOG_ARG_R_ABOVE_1);
+        quad dl = q_diff_pm (lg, q_log (UE), false), de = q_diff_pm (el, UE, false);
+        MEAS ("J.log-second", dl / e); // measured worst 1e-7 eps (log E = vector part of E)
+        MEAS ("J.exp-log-second", de / e);
+        VP_REQUIRE (c, finiteq (lg), "derived/log-not-finite", what << "E=D.inverse()*D=" << qs (E) << " log(E)=" << qs (lg));
+        VP_REQUIRE (c, dl <= 8 * e, "derived/quat-log", what << "E=D.inverse()*D=" << qs (E) << " log(E)=" << qs (lg) << " exact " << q4str (q_log (UE)) << " error " << (double) (dl / e) << " eps (limit 8)");
+        VP_REQUIRE (c, de <= 8 * e, "derived/exp-of-log", what << "E=D.inverse()*D=" << qs (E) << " exp(log E)=" << qs (el) << " error " << (double) (de / e) << " eps (limit 8)");
+    }
+    // ---- angle / axis / setAxisAngle round trip (up to sign)
+    {
+        quad    vl  = sqrtq (QD.x * QD.x + QD.y * QD.y + QD.z * QD.z);
+        quad    wa  = 2 * atan2q (vl, QD.r);
+        T       ang = D.angle ();
+        Vec3<T> ax  = D.axis ();
+        quad    da  = qabs ((quad) ang - wa);
+        MEAS ("J.angle", wa != 0 ? da / (e * wa) : da); // measured worst 1.65 eps relative
+        VP_REQUIRE (c, da <= 6 * e * wa, "derived/quat-angle", what << "angle(D)=" << ang << " exact " << qstr (wa));
+        for (int i = 0; i < 3; ++i)
+        {
+            quad wx = vl == 0 ? (quad) 0 : q_comp (QD, i + 1) / vl;
+            quad d  = qabs ((quad) ax[i] - wx);
+            MEAS ("J.axis", d / e); // measured worst 1.3 eps
+            VP_REQUIRE (c, d <= 6 * e, "derived/quat-axis", what << "axis(D)=" << vs (ax) << " component " << i << " exact " << qstr (wx));
+        }
+        Quat<T> back;
+        back.setAxisAngle (ax, ang);
+        quad db = q_diff_pm (back, UD, true);
+        MEAS ("J.axis-angle-roundtrip", db / e); // measured worst 2.0 eps (setAxisAngle re-normalises: no allowance)
+        VP_REQUIRE (c, db <= 12 * e, "derived/axis-angle-roundtrip", what << "setAxisAngle(axis(),angle()) = " << qs (back) << " axis=" << vs (ax) << " angle=" << ang << " error " << (double) (db / e) << " eps (limit 12)");
+    }
+    // ---- toMatrix33/44, extractQuat, rotateVector, v*D
+    {
+        Matrix33<T> M3 = D.toMatrix33 ();
+        Matrix44<T> M4 = D.toMatrix44 ();
+        QM<3>       WM = q_mat (UD);
+        quad        dm = max_diff<3> (M3, WM);
+        const quad tm = (12 + 4 * dn) * e;
+        MEAS ("J.toMatrix-entry/limit", dm / tm); // measured worst 0.45 of the limit
+        VP_REQUIRE (c, dm <= tm, "derived/toMatrix-entry", what << "toMatrix33()=" << mstr (M3, 3) << " exact " << mstr (WM, 3) << " error " << (double) (dm / e) << " eps (limit " << (double) (tm / e) << ")");
+        Quat<T> x  = extractQuat (M4);
+        quad    dx = q_diff_pm (x, UD, true);
+        const quad tx = (12 + 2 * dn) * e;
+        MEAS ("J.extract-of-toMatrix/limit", dx / tx); // measured worst 0.49 of the limit
+        VP_REQUIRE (c, dx <= tx, "derived/extractQuat-of-toMatrix44", what << "extractQuat(D.toMatrix44())=" << qs (x) << " error " << (double) (dx / e) << " eps (limit " << (double) (tx / e) << ")");
+        quad vq[3] = { (quad) v.x, (quad) v.y, (quad) v.z }, want[3];
+        q_rot (UD, vq, want);
+        quad    vl = vlenq (v);
+        const quad tr = (16 + 4 * dn) * e * vl;
+        Vec3<T> r0 = D.rotateVector (v), r1 = v * D, r2 = v * M3;
+        for (int i = 0; i < 3; ++i)
+        {
+            quad d0 = qabs ((quad) r0[i] - want[i]), d1 = qabs ((quad) r1[i] - want[i]), d2 = qabs ((quad) r2[i] - want[i]);
+            if (!(r0[i] == r0[i])) d0 = (quad) 1e300;
+            if (!(r1[i] == r1[i])) d1 = (quad) 1e300;
+            if (!(r2[i] == r2[i])) d2 = (quad) 1e300;
+            if (vl != 0) MEAS ("J.rotate/limit", qmax (qmax (d0, d1), d2) / tr); // measured worst 0.40 of the limit
+            VP_REQUIRE (c, d0 <= tr, "derived/rotateVector", what << "rotateVector(" << vs (v) << ")=" << vs (r0) << " component " << i << " exact " << qstr (want[i]));
+            VP_REQUIRE (c, d1 <= tr, "derived/v*q", what << vs (v) << "*D=" << vs (r1) << " component " << i << " exact " << qstr (want[i]));
+            VP_REQUIRE (c, d2 <= tr, "derived/v*toMatrix33", what << vs (v) << "*D.toMatrix33()=" << vs (r2) << " component " << i << " exact " << qstr (want[i]));
+        }
+    }
+    // ---- angle4D / slerp / slerpShortestArc with D as first key
+    {
+        int         pk = (int) s.below (8);
+        long double a  = 0.05L + 2.45L * (long double) s.unit ();
+        Quat<T>     q2;
+        bool        antipodal = false;
+        switch (pk)
+        {
+            case 0: q2 = D; break;                                  // bit-identical
+            case 1: q2 = D * D.inverse () * D; c.label (LJ_PARTNER_SAME_ROTATION); break; // the same rotation, a few ulps away
+            case 2: q2 = D.normalized (); c.label (LJ_PARTNER_SAME_ROTATION); break;
+            case 3: q2 = -(D * D.inverse () * D); antipodal = true; c.label (LJ_PARTNER_ANTIPODAL); break; // statement: shortest arc / angle4D only
+            case 4: q2 = quat_at_angle<T> (s, D, a) * (D.inverse () * D); break; // generic partner, itself a product
+            default: q2 = quat_at_angle<T> (s, D, a); break;
+        }
+        Q4   U2 = q_unit (toQ (q2));
+        quad A  = q_angle4 (UD, U2);
+        {
+            T    a4 = angle4D (D, q2);
+            quad WA = q_angle4 (QD, toQ (q2));
+            quad d  = qabs ((quad) a4 - WA);
+            MEAS ("J.angle4D", WA != 0 ? (d - 4 * sqrtq (MIN_NORMAL<T> ())) / (e * WA) : d); // measured worst 2.2 eps relative
+            // the squares of components of D - q2 below sqrt(smallest normal) underflow in d ^ d (plain dot product)
+            VP_REQUIRE (c, d <= 8 * e * WA + 4 * sqrtq (MIN_NORMAL<T> ()), "derived/angle4D", what << "angle4D(D," << qs (q2) << ")=" << a4 << " exact " << qstr (WA));
+        }
+        if (!antipodal)
+        {
+            quad    cond = A > QPI / 2 ? 1 / sinq (A) : (quad) 1;
+            quad    tol  = 16 * e * cond;
+            Quat<T> r    = slerp (D, q2, t), r0 = slerp (D, q2, (T) 0), r1 = slerp (D, q2, (T) 1);
+            quad    n    = sqrtq (q_n2 (toQ (r)));
+            MEAS ("J.slerp-unit", qabs (n - 1) / e); // measured worst 1.3 eps
+            VP_REQUIRE (c, finiteq (r) && qabs (n - 1) <= 6 * e, "derived/slerp-not-unit", what << "slerp(D," << qs (q2) << "," << t << ")=" << qs (r) << " has length " << qstr (n));
+            quad d = q_diff_pm (r, q_slerp (UD, U2, (quad) t), false);
+            MEAS ("J.slerp", d / (e * cond)); // measured worst 2.8 (x eps/sin A)
+            VP_REQUIRE (c, d <= tol, "derived/slerp-point", what << "slerp(D," << qs (q2) << "," << t << ")=" << qs (r) << " exact " << q4str (q_slerp (UD, U2, (quad) t)) << " error " << (double) (d / e) << " eps (limit " << (double) (tol / e) << ")");
+            quad d01 = qmax (q_diff_pm (r0, UD, false), q_diff_pm (r1, U2, false));
+            MEAS ("J.slerp-endpoints", d01 / (e * cond)); // measured worst 1.0
+            VP_REQUIRE (c, d01 <= tol, "derived/slerp-endpoint", what << "slerp(D,q2,0)=" << qs (r0) << " slerp(D,q2,1)=" << qs (r1) << " q2=" << qs (q2) << " error " << (double) (d01 / e) << " eps (limit " << (double) (tol / e) << ")");
+        }
+        {
+            quad    dt = q_dot (UD, U2);
+            Quat<T> r  = slerpShortestArc (D, q2, t);
+            quad    n  = sqrtq (q_n2 (toQ (r)));
+            VP_REQUIRE (c, finiteq (r) && qabs (n - 1) <= 6 * e, "derived/slerpShortestArc-not-unit", what << "slerpShortestArc(D," << qs (q2) << "," << t << ")=" << qs (r) << " has length " << qstr (n));
+            Q4   Wp = q_slerp (UD, U2, (quad) t), Wm = q_slerp (UD, q_scale (U2, -1), (quad) t);
+            quad dp = q_diff_pm (r, Wp, false), dm = q_diff_pm (r, Wm, false);
+            quad tol = 8 * e;
+            bool ok = qabs (dt) <= 8 * e ? (dp <= 2 * tol || dm <= 2 * tol) : (dt > 0 ? dp <= tol : dm <= tol);
+            MEAS ("J.shortest", (qabs (dt) <= 8 * e ? qmin (dp, dm) : dt > 0 ? dp : dm) / e); // measured worst 1.9 eps
+            VP_REQUIRE (c, ok, "derived/slerpShortestArc-point", what << "slerpShortestArc(D," << qs (q2) << "," << t << ")=" << qs (r) << " expected " << q4str (dt >= 0 ? Wp : Wm) << " errors " << (double) (dp / e) << " / " << (double) (dm / e) << " eps");
+        }
+    }
+    // ---- intermediate / squad / spline: repeated keys, keys that are products
+    {
+        Quat<T> k[3];
+        bool    dk = s.coin ();
+        k[0]       = dk ? D : q;
+        if (UD.r > 1 - 64 * e || UD.r < -1 + 64 * e) k[0] = dk ? p * D : q; // D ~ +-1: make the key a generic rotation
+        long double a1 = 0.05L + 1.15L * (long double) s.unit ();
+        long double a2 = 0.05L + 1.15L * (long double) s.unit ();
+        k[1]           = quat_at_angle<T> (s, k[0], a1);
+        k[2]           = quat_at_angle<T> (s, k[1], a2);
+        if (dk)
+        {
+            c.label (LJ_DERIVED_KEYS);
+            k[1] = k[1] * (q.inverse () * q);
+            k[2] = (p * ~p) * k[2];
+        }
+        int            pat = (int) s.below (7);
+        static const int P[7][4] = { { 0, 0, 1, 2 }, { 0, 1, 2, 2 }, { 0, 1, 1, 2 }, { 0, 0, 0, 0 }, { 0, 0, 1, 1 }, { 0, 0, 0, 1 }, { 0, 1, 1, 1 } };
+        const int*     ix  = P[pat];
+        if (ix[0] == ix[1]) c.label (LJ_REPEAT_FIRST);
+        if (ix[1] == ix[2]) c.label (LJ_REPEAT_MIDDLE);
+        if (ix[2] == ix[3]) c.label (LJ_REPEAT_LAST);
+        if (pat == 3) c.label (LJ_ALL_EQUAL);
+        const Quat<T>&q0 = k[ix[0]], &q1 = k[ix[1]], &q2 = k[ix[2]], &q3 = k[ix[3]];
+        Q4             U0 = q_unit (toQ (q0)), U1 = q_unit (toQ (q1)), U2 = q_unit (toQ (q2)), U3 = q_unit (toQ (q3));
+        std::ostringstream ks;
+        ks << TN<T>::q () << " keys (q0,q1,q2,q3) = (k" << ix[0] << ",k" << ix[1] << ",k" << ix[2] << ",k" << ix[3] << ") k0=" << qs (k[0]) << " k1=" << qs (k[1]) << " k2=" << qs (k[2]) << ": ";
+        const std::string kw = ks.str ();
+        Quat<T> qa = intermediate (q0, q1, q2), qb = intermediate (q1, q2, q3);
+        Q4      WA = q_intermediate (U0, U1, U2), WB = q_intermediate (U1, U2, U3);
+        quad    da = qmax (q_diff_pm (qa, WA, false), q_diff_pm (qb, WB, false));
+        MEAS ("J.intermediate", da / e); // measured worst 1.54 eps
+        VP_REQUIRE (c, da <= 12 * e, "derived/intermediate", kw << "intermediate(q0,q1,q2)=" << qs (qa) << " exact " << q4str (WA) << "; intermediate(q1,q2,q3)=" << qs (qb) << " exact " << q4str (WB) << " error " << (double) (da / e) << " eps (limit 12)");
+        Quat<T> s0 = squad (q1, qa, qb, q2, (T) 0), s1 = squad (q1, qa, qb, q2, (T) 1);
+        Quat<T> p0 = spline (q0, q1, q2, q3, (T) 0), p1 = spline (q0, q1, q2, q3, (T) 1);
+        quad    dsq = qmax (q_diff_pm (s0, U1, false), q_diff_pm (s1, U2, false)), dsp = qmax (q_diff_pm (p0, U1, false), q_diff_pm (p1, U2, false));
+        MEAS ("J.keys", qmax (dsq, dsp) / e); // measured worst 1.08 eps
+        VP_REQUIRE (c, dsq <= 6 * e, "derived/squad-misses-key", kw << "squad(q1,qa,qb,q2,0)=" << qs (s0) << " squad(..,1)=" << qs (s1) << " qa=" << qs (qa) << " qb=" << qs (qb));
+        VP_REQUIRE (c, dsp <= 6 * e, "derived/spline-misses-key", kw << "spline(q0,q1,q2,q3,0)=" << qs (p0) << " spline(..,1)=" << qs (p1));
+        Q4      UA = q_unit (toQ (qa)), UB = q_unit (toQ (qb));
+        Q4      WS = q_slerp (q_slerp (U1, U2, (quad) t), q_slerp (UA, UB, (quad) t), 2 * (quad) t * (1 - (quad) t));
+        Quat<T> st = squad (q1, qa, qb, q2, t);
+        quad    ds = q_diff_pm (st, WS, false);
+        MEAS ("J.squad", ds / e); // measured worst 1.8 eps
+        VP_REQUIRE (c, ds <= 16 * e, "derived/squad-point", kw << "squad(q1,qa,qb,q2," << t << ")=" << qs (st) << " exact " << q4str (WS) << " error " << (double) (ds / e) << " eps (limit 16)");
+        Q4      WP = q_slerp (q_slerp (U1, U2, (quad) t), q_slerp (WA, WB, (quad) t), 2 * (quad) t * (1 - (quad) t));
+        Quat<T> pt = spline (q0, q1, q2, q3, t);
+        quad    dp = q_diff_pm (pt, WP, false);
+        quad    np = sqrtq (q_n2 (toQ (pt)));
+        MEAS ("J.spline", dp / e); // measured worst 1.9 eps
+        MEAS ("J.spline-unit", qabs (np - 1) / e);
+        VP_REQUIRE (c, finiteq (pt) && qabs (np - 1) <= 6 * e, "derived/spline-not-unit", kw << "spline(q0,q1,q2,q3," << t << ")=" << qs (pt) << " has length " << qstr (np));
+        VP_REQUIRE (c, dp <= 16 * e, "derived/spline-point", kw << "spline(q0,q1,q2,q3," << t << ")=" << qs (pt) << " exact " << q4str (WP) << " error " << (double) (dp / e) << " eps (limit 16)");
+    }
+}
+#define C10_DER(name, T)                                                                                                                                                                                                                                                                                                                                                                                                                                                                                                                                                                                                                                                                                                                    \
+    VP_RANDOM (name, 150000, 2000000, "p, q from the 7 classes; D = one of 13 three-operation results (q.inverse()*q, q*q.inverse(), q*~q, (p*q)*(p*q).inverse(), q/q, q*q.inverse()*q, (p*q)*~q, p*q, (p*q).normalized(), q.normalized(), p.inverse()*q, -(q.inverse()*q), p*q*~p): unit to rounding, real part possibly 1+ulp; D is fed to log/exp (and D.inverse()*D again), angle/axis/setAxisAngle, toMatrix/extractQuat, rotateVector, v*D, angle4D/slerp/slerpShortestArc (partner: D itself, the same rotation a few ulps away, its antipode (shortest arc and angle4D only), a generic one); squad/spline/intermediate on three keys (generated or products) in the windows (k0,k0,k1,k2) (k0,k1,k2,k2) (k0,k1,k1,k2) (k0,k0,k0,k0) (k0,k0,k1,k1) (k0,k0,k0,k1) (k0,k1,k1,k1); oracle = quad algebra on the derived value, bounds of the corresponding base sub-checks; every case non-trivial") \
+    {                                                                                                                                                                                                                                                                                                                                                                                                                                                                                                                                                                                                                                                                                                                                       \
+        derived_case<T> (c);                                                                                                                                                                                                                                                                                                                                                                                                                                                                                                                                                                                                                                                                                                                \
+    }                                                                                                                                                                                                                                                                                                                                                                                                                                                                                                                                                                                                                                                                                                                                       \
+    VP_LABELS (name, C10_QLABELS, "real_part_above_1", "real_part_exactly_1", "norm_above_1", "norm_below_1", "near_identity", "near_minus_identity", "exp_log_checked", "partner_same_rotation", "partner_antipodal", "repeated_first_key", "repeated_middle_key", "repeated_last_key", "all_keys_equal", "keys_are_products", "second_generation_real_part_above_1")                                                                                                                                                                                                                                                                                                                                                                     \
+    VP_REQUIRE_LABELS (name, "real_part_above_1", "real_part_exactly_1", "norm_above_1", "norm_below_1", "near_identity", "near_minus_identity", "exp_log_checked", "partner_same_rotation", "partner_antipodal", "repeated_first_key", "repeated_middle_key", "repeated_last_key", "all_keys_equal", "keys_are_products", "second_generation_real_part_above_1")
+C10_DER (derived_f, float)
+C10_DER (derived_d, double)
+
 VP_MAIN ("C10")
